@@ -5,6 +5,7 @@ import Ufw.Tie.CrcLoops.Arc
 import Ufw.Tie.CrcLoops.Buffer
 import Ufw.Tie.CrcLoops.ArcU16
 import Ufw.Tie.CrcLoops.BufferU16
+import Ufw.Tie.CrcLoops.EndToEnd
 #print axioms Ufw.Props.C16.octet_eq_bitwise
 #print axioms Ufw.Props.C16.crc_eq_spec
 #print axioms Ufw.Props.C16.buffer_crc_eq_spec
@@ -28,3 +29,6 @@ import Ufw.Tie.CrcLoops.BufferU16
 #print axioms Ufw.Tie.CrcLoops.loop1_u16_spec
 #print axioms Ufw.Tie.CrcLoops.gen_ufw_crc16_arc_u16
 #print axioms Ufw.Tie.CrcLoops.gen_ufw_buffer_crc16_arc_u16
+#print axioms Ufw.Tie.CrcLoops.c_crc_eq_spec
+#print axioms Ufw.Tie.CrcLoops.c_crc_append
+#print axioms Ufw.Tie.CrcLoops.c_crc_u16_eq_octets
